@@ -7,8 +7,9 @@
 2. The harness builds the real packet structs with concrete values of every shape, encodes them
    with the real Packet.Encode under a PacketContext of that protocol and logs values + bytes;
    it tabulates mathutil.FloorDiv.
-3. Packets_Trace.tla (TLC): bytes = Layout(pkt, v, values) for every line, where Layout is the
-   vanilla wire layout written on Wire.tla; RoundTrip (decoding the layout with Wire's
+3. Packets_Trace.tla (TLC): Matches(Fields(pkt, v, values), bytes) for every line: every field
+   byte for byte in the vanilla wire layout written on Wire.tla, NBT text components decoded by
+   the spec's own NBT reader and compared with the component meant; RoundTrip (decoding the layout with Wire's
    decoders) validates the spec itself on the same lines.
 """
 import json
@@ -24,9 +25,13 @@ META = {
             "of Wire.tla; player-info updates must carry each entry's action data in the protocol's fixed order for "
             "every action subset and supply order. mathutil.FloorDiv is tabulated against its defining property.",
     "design_ref": "DESIGN.md section 4, C07",
-    "level_note": "Field values are sampled per shape class (seeded), not all values. Chat components are opaque: the "
-                  "harness supplies a JSON text (before 1.20.3 and in the login state) or a hand-written NBT string tag "
-                  "(1.20.3+) and the layout only fixes how that body is framed. Signed profile keys use a real RSA key "
+    "level_note": "Field values are sampled per shape class (seeded), not all values. JSON chat components (before "
+                  "1.20.3 and in the login state) are opaque: the harness supplies the JSON text and the layout only "
+                  "fixes its framing. NBT components (1.20.3+: disconnect in play/config, player-info display names) are "
+                  "built by the proxy from a text component with 0 or 2 children and are decoded by an NBT reader written "
+                  "in TLA+; the decoded tag must mean the component (text / extra as STRING tags with exactly the texts, "
+                  "no other keys) for 24 text classes incl. number-, boolean- and version-looking texts; styled "
+                  "components are not exercised. Signed profile keys use a real RSA key "
                   "from the Go standard library with a random signature. The login success layout is not claimed for "
                   "protocol 776 (26.2, no independent source for its session-id field). Player-info action sets are "
                   "restricted to the actions that exist in the protocol (6 before 1.21.2, 7 before 1.21.4, 8 since). "
@@ -92,7 +97,7 @@ def run(ctx):
     }
     return ctx.finish("model_checking", cov, [
         "shape classes are exhaustive over the enumerated parameters; values inside a class are sampled with VERIF_SEED",
-        "component bodies, RSA keys and signatures are opaque byte strings to the spec",
+        "JSON component bodies, RSA keys and signatures are opaque byte strings to the spec",
     ])
 
 
@@ -131,14 +136,44 @@ def report(ctx, bad):
             detail += ":noentries"
     elif pkt == "plugin":
         detail = ":chan%d:%s" % (p[0], "ext" if p[1] > 32767 else "short")
-    elif pkt in ("loginstart", "encresp", "encreq", "loginsuccess", "disconnect"):
+    elif pkt in ("loginstart", "encresp", "encreq", "loginsuccess"):
         detail = ":" + "-".join(str(x) for x in p[:4])
+    if pkt == "disconnect":
+        detail = ":" + bad["f"]["st"]
+        if "comp" in bad["f"]:
+            detail += ":nbt-text:" + textkind(bad["f"]["comp"])
+    if pkt == "upsert" and v >= 765:
+        kinds = sorted(set(textkind(e["dnc"]) for e in bad["f"]["entries"] if "dnc" in e))
+        if kinds and kinds != ["plain"]:
+            detail += ":displayname:" + "+".join(kinds)
     ctx.finding("%s@%s%s" % (pkt, vclass(pkt, v), detail),
                 "%s for protocol %d (shape %s): the bytes written are not the vanilla layout of the values meant"
                 % (pkt, v, p), slim(bad))
 
 
 # version switches of each packet's layout (finding keys name the layout class, not the protocol)
+def textkind(comp):
+    """class of the texts in a meant component (for finding keys only)"""
+    import re
+    ts = [bytes(comp["text"]).decode()] + [bytes(c["text"]).decode() for c in comp["extra"]]
+    kinds = set()
+    for t in ts:
+        if t == "":
+            kinds.add("empty")
+        elif t in ("true", "false", "null"):
+            kinds.add("keyword-like")
+        elif re.fullmatch(r"[+-]?(\d+\.?\d*|\.\d+)([eE][+-]?\d*)?[bBsSlLfFdD]?|0x[0-9a-fA-F]+", t):
+            kinds.add("number-like")
+        elif re.fullmatch(r"[a-zA-Z0-9_.+-]+", t):
+            kinds.add("bare-token")
+        else:
+            kinds.add("plain")
+    for k in ("number-like", "keyword-like", "empty", "bare-token", "plain"):
+        if k in kinds:
+            return k
+    return "plain"
+
+
 BOUNDS = {
     "loginstart": [759, 760, 761, 764], "loginsuccess": [5, 735, 759, 766, 768, 776], "encreq": [47, 766],
     "encresp": [47, 759, 761], "plugin": [47, 393], "disconnect": [765], "keepalive": [47, 340],
